@@ -367,7 +367,7 @@ func (fc *FnCtx) contractCall(st *State, e *ast.CallExpr, fn *types.Func, sig *t
 	fc.interleave(st, fn)
 	// f(a, b, c) for a variadic f: the contract speaks about the slice parameter, so the trailing arguments are
 	// packed into a slice value whose elements are exactly those arguments
-	if fs, ok := fn.Type().(*types.Signature); ok && fs.Variadic() && !e.Ellipsis.IsValid() {
+	if fs, ok := fn.Type().(*types.Signature); ok && fs.Variadic() && !e.Ellipsis.IsValid() && !c.Trusted {
 		np := fs.Params().Len()
 		if len(args) >= np-1 {
 			st0 := fs.Params().At(np - 1).Type()
